@@ -1,4 +1,8 @@
 import CM.Proofs.BlankPrefix
+import CM.Proofs.EolEnd
+import CM.Proofs.EolInvariant
+import CM.Proofs.EolLabel2
+import CM.Proofs.EolFinal
 /-
 C14 — clause (b): prepending blank lines changes nothing but offsets and line numbers, which shift by exactly the
 prefix. Proved about the stream-machine model (`Model/Stream.lean`) for EVERY line parser `L : LineParserI`: the
@@ -52,5 +56,60 @@ theorem trailing_prefix_stable (L : LineParserI) (x t : Bytes) (hx : terminated 
 /-- "Trailing blank lines never matter" is FALSE for an arbitrary line parser (it is fed the end-of-input line at a
     different position and can tell), and for the real one: an unclosed fenced code block absorbs them. -/
 theorem trailing_blank_irrelevant_false : ¬ trailing_blank_irrelevant_target := trailing_blank_irrelevant_target_false
+
+/-! ### Clause (a): line-ending style, and clause (c) at the level of lines (session 4; 31 proof files `Eol*`) -/
+
+/-- Every line recognizer, the blank-line test, the indentation measure and six of the seven HTML-block start conditions
+    return the SAME result (all fields, positions included) on a line with and without a line ending of any style:
+    `e` = nothing, LF, CR LF or CR. (`e = []` against `[LF]` is clause (c) at this level.) -/
+theorem recognizer_eol_invariant (l e : Bytes) (he : EolBytes e) :
+    parseThematicBreak (l ++ e) = parseThematicBreak l ∧ parseATXHeading (l ++ e) = parseATXHeading l ∧
+    parseSetextHeadingUnderline (l ++ e) = parseSetextHeadingUnderline l ∧ parseCodeFence (l ++ e) = parseCodeFence l ∧
+    parseListMarker (l ++ e) = parseListMarker l ∧ isBlankLine (l ++ e) = isBlankLine l ∧
+    indentLength (l ++ e) = indentLength l ∧ hasTabOrSpacePrefixOrEOL (l ++ e) = hasTabOrSpacePrefixOrEOL l ∧
+    (∀ i, i ≠ 6 → htmlBlockStart i (l ++ e) = htmlBlockStart i l) :=
+  Proofs.recognizer_eol_invariant l e he
+
+/-- The seventh start condition (a complete open or closing tag) too. -/
+theorem htmlStart7_eol (y : Bytes) (c : UInt8) (hc : isNL c = true) : htmlStart7 (y ++ [c]) = htmlStart7 y :=
+  Proofs.htmlStart7_snoc y c hc
+
+/-- The HTML-block END conditions agree between LF, CRLF and CR … -/
+theorem htmlBlockEnd_eol_invariant (i : Nat) (l : Bytes) :
+    htmlBlockEnd i (l ++ [CR, LF]) = htmlBlockEnd i (l ++ [LF]) ∧ htmlBlockEnd i (l ++ [CR]) = htmlBlockEnd i (l ++ [LF]) :=
+  Proofs.htmlBlockEnd_eol_invariant i l
+
+/-- … but NOT between "no line ending" and LF: `contains` never tests the last position, so `<!-- a -->` as the last line
+    of an input without final newline does not end its block (the block then ends with the input; rendering differs only in
+    insignificant white space). -/
+theorem htmlBlockEnd_final_newline_false : ¬ htmlBlockEnd_final_newline_target := htmlBlockEnd_final_newline_target_false
+
+/-- The stream machine's line splitting commutes with rewriting the line endings of a CR-free input. -/
+theorem lines_crlf (x : Bytes) (hx : NoCR x) :
+    lines (toCRLF x) = (lines x).map toCRLF ∧ lineCount (toCRLF x) = lineCount x :=
+  Proofs.lines_crlf x hx
+
+/-- **Clause (a), block phase.** For every CR-free, NUL-free input without `[` and each of the styles CRLF and CR, the block
+    phase of the re-written input delivers exactly the images of the original roots under the position map (offsets, lines,
+    Source with re-written endings, every span of every block and text run), and ends the same way — for every fuel. -/
+theorem blocks_eol_sim_total (x : PExt) {e : Bytes} (he : StdEol e) (inp : Bytes) (hcr : NoCR inp) (hnul : NoNul inp)
+    (hb : NoBracket inp) (n : Nat) :
+    (drain (blocksLP x) n (memParser (toEol e inp)) []).1 =
+      (drain (blocksLP x) n (memParser inp) []).1.map (mapRoot e inp) ∧
+    (drain (blocksLP x) n (memParser (toEol e inp)) []).2.1 = (drain (blocksLP x) n (memParser inp) []).2.1 :=
+  Proofs.blocks_eol_sim_total x he inp hcr hnul hb n
+
+/-- Without the `[` restriction the statement is FALSE for the model (and the code): a 995-byte label spread over lines is
+    a label with LF and too long with CRLF (the known finding KF-C14-label-limit-crlf, now a theorem). -/
+theorem blocks_eol_sim_general_false : ¬ blocks_eol_sim_general_target := blocks_eol_sim_general_target_false
+
+/-- Clause (c), lines: appending LF to an input without final line ending only completes the last line. -/
+theorem lines_final_newline (pre last : Bytes) (hpre : terminated pre = true) (hlast : ∀ c ∈ last, c ≠ LF ∧ c ≠ CR)
+    (hne : last ≠ []) :
+    lines (pre ++ last) = lines pre ++ [last] ∧ lines (pre ++ last ++ [LF]) = lines pre ++ [last ++ [LF]] :=
+  Proofs.lines_final_newline pre last hpre hlast hne
+
+/-- Clause (c) read as "block trees equal up to the final position" is FALSE (the HTML end condition above). -/
+theorem blocks_final_newline_false : ¬ blocks_final_newline_target := blocks_final_newline_target_false
 
 end CM.Props.C14
